@@ -68,6 +68,19 @@ def factor_shape(rng, total):
     return out
 
 
+def factor_into(rng, total, k):
+    """ordered factorisation of `total` into exactly k factors (ones allowed)"""
+    fs, n, p = [], total, 2
+    while n > 1:
+        while n % p == 0:
+            fs.append(p); n //= p
+        p += 1
+    out = [1] * k
+    for f in fs:
+        out[rng.randrange(k)] *= f
+    return out
+
+
 def sweep_cases(rng, tier, which):
     cases = []
     n = 30 if tier == "quick" else 250
@@ -159,6 +172,80 @@ def sweep_cases(rng, tier, which):
                         e = exact_equal(dense_of(y), dx)
                         return ("round (TT-matrix) with exact oracles and no truncation changed the operator: " + e) if e else None
                     cases.append(Case(J("roundttm", cap, tt_tokens(x)), impl, oracle, "sweep/round_ttm/d%d/cap%s" % (d, cap), True, gauge_ok=False))
+        elif which in ("to_tt_rmax", "mat_to_tt_rmax"):
+            # per-bond caps (rmax list), singleton modes included; the fake rank_chop keeps everything, the cap comes from rmax alone
+            d = rng.randint(2, 4)
+            if which == "to_tt_rmax":
+                N = [rng.choice([1, 2, 3, 4]) for _ in range(d)]
+                caps = [rng.randint(1, 4) for _ in range(d - 1)]
+                A = int_tensor(rng, N, tn.float64, -3, 3)
+
+                def impl(A=A, caps=caps, N=N):
+                    with FakePrims(1000):
+                        x = torchtt.TT(A.clone(), eps=0.5, rmax=[1] + list(caps) + [1])
+                    return out_tt(x)
+                cases.append(Case(J("tottr", [len(caps)] + caps, dense_tokens(A)), impl, None, "sweep/to_tt_rmax/d%d" % d, True, gauge_ok=False))
+            else:
+                M = [rng.randint(1, 3) for _ in range(d)]
+                N = [rng.randint(1, 2) for _ in range(d)]
+                caps = [rng.randint(1, 4) for _ in range(d - 1)]
+                A = int_tensor(rng, M + N, tn.float64, -3, 3)
+                shp = [(m, n) for m, n in zip(M, N)]
+
+                def impl(A=A, caps=caps, shp=shp):
+                    with FakePrims(1000):
+                        x = torchtt.TT(A.clone(), shape=list(shp), eps=0.5, rmax=[1] + list(caps) + [1])
+                    return out_tt(x)
+                cases.append(Case(J("mattottr", [len(caps)] + caps, [d] + M, [d] + N, dense_tokens(A)), impl, None, "sweep/mat_to_tt_rmax/d%d" % d, True, gauge_ok=False))
+        elif which == "permute_ttm":
+            d = rng.randint(2, 4)
+            M = [rng.randint(1, 3) for _ in range(d)]
+            N = [rng.randint(1, 2) for _ in range(d)]
+            x = rand_tt(rng, N, rand_ranks(rng, d, 3), tn.float64, M=M)
+            dx = dense_of(x)
+            dims = list(range(d)); rng.shuffle(dims)
+            if c % 5 == 0:
+                dims = list(range(d))[::-1]
+
+            def impl(x=x, cap=cap, dims=dims):
+                with FakePrims(cap):
+                    y = torchtt.permute(x, list(dims), eps=0.5)
+                return out_tt(y)
+
+            def oracle(x=x, dx=dx, cap=cap, dims=dims, d=d):
+                if cap < 1000:
+                    return None
+                with FakePrims(cap):
+                    y = torchtt.permute(x, list(dims), eps=0.5)
+                e = exact_equal(dense_of(y), dx.permute(list(dims) + [d + k for k in dims]))
+                return ("permute (TT-matrix) with exact oracles and no truncation must move the entries exactly: " + e) if e else None
+            cases.append(Case(J("permutettm", cap, [d] + dims, tt_tokens(x)), impl, oracle, "sweep/permute_ttm/d%d/cap%s" % (d, cap), True, gauge_ok=False))
+        elif which == "reshape_ttm":
+            d = rng.randint(1, 3)
+            M = [rng.choice([1, 2, 3, 4]) for _ in range(d)]
+            N = [rng.choice([1, 2, 3, 4]) for _ in range(d)]
+            x = rand_tt(rng, N, rand_ranks(rng, d, 3), tn.float64, M=M)
+            dx = dense_of(x)
+            # a compatible target: factorise row and column sizes position by position (merge everything, then split both the same number of ways)
+            k = rng.randint(1, 3)
+            Md = factor_into(rng, int(np.prod(M)), k)
+            Nd = factor_into(rng, int(np.prod(N)), k)
+            dst = list(zip(Md, Nd))
+
+            def run_impl(x=x, cap=cap, dst=dst):
+                with FakePrims(cap):
+                    return torchtt.reshape(x, list(dst), eps=0.5)
+
+            def impl(run_impl=run_impl):
+                return out_tt(run_impl())
+
+            def oracle(run_impl=run_impl, dx=dx, cap=cap, Md=Md, Nd=Nd):
+                if cap < 1000:
+                    return None
+                y = run_impl()
+                e = exact_equal(dense_of(y), dx.reshape(list(Md) + list(Nd)))
+                return ("reshape (TT-matrix) with exact oracles and no truncation must keep the row-major entry order of rows and columns: " + e) if e else None
+            cases.append(Case(J("reshapettm", cap, len(dst), [v for p in dst for v in p], tt_tokens(x)), impl, oracle, "sweep/reshape_ttm/d%d->%d/cap%s" % (d, k, cap), True, gauge_ok=False))
         elif which == "reshape":
             N = [rng.choice([1, 2, 3, 4, 6]) for _ in range(rng.randint(1, 4))]
             d = len(N)
